@@ -400,6 +400,16 @@ func c10readMulti(c *mon.Ctx, or *c10oracle, s c10str, rk readerKind, rng *rand.
 	snap := append([]byte(nil), s.b...)
 	rd, _ := rk.mk(s.b, rng)
 	want := or.multiOK(s.b)
+	// history: sometimes the point fields of the same bytes were decoded through the TRUSTED entry point before (another
+	// part of the program that takes them from its own store); the decision on the untrusted stream must not depend on it
+	if rng.Intn(3) == 0 {
+		for off := 0; off+32 <= len(s.b) && off < 544; off += 32 {
+			var t banderwagon.Element
+			fld := s.b[off : off+32]
+			mon.Try(func() { t.SetBytesUnsafe(fld) })
+		}
+		c.Count("trusted_decode_before_untrusted", 1)
+	}
 	var mp multiproof.MultiProof
 	freshReceiver := true
 	if rng.Intn(2) == 0 {
